@@ -10,6 +10,7 @@ package dpos
 import (
 	"bufio"
 	"crypto/sha256"
+	"encoding/binary"
 	"encoding/hex"
 	"encoding/json"
 	"fmt"
@@ -17,6 +18,7 @@ import (
 	"os"
 	"testing"
 
+	"github.com/aergoio/aergo/v2/chain"
 	"github.com/aergoio/aergo/v2/contract/system"
 	"github.com/aergoio/aergo/v2/state"
 	"github.com/aergoio/aergo/v2/state/statedb"
@@ -34,6 +36,10 @@ type vrCase struct {
 	Vault  string    `json:"vault"`
 	Voters []vrVoter `json:"voters"`
 	Seed   string    `json:"seed"` // hex, >= 8 bytes: previous block hash
+	// composition: when Fees != "" the engine calls chain.SendBlockReward with the DPoS hook installed
+	// (chain.DecorateBlockRewardFn(sendVotingReward), as dpos.New does) on a block state whose BpReward = Fees
+	Fees     string `json:"fees"`
+	Coinbase string `json:"coinbase"` // winner | loser | vault | fresh | none
 }
 
 type vrObs struct {
@@ -46,6 +52,7 @@ type vrObs struct {
 	SumB    string            `json:"sumBefore"`
 	SumA    string            `json:"sumAfter"`
 	NonceOK bool              `json:"nonceOK"`
+	CbID    int               `json:"cb"` // id of the coinbase account used (0 = none)
 }
 
 func vrAddr(id int) []byte {
@@ -148,8 +155,51 @@ func vrRun(c *vrCase, dir string) (o *vrObs) {
 		}
 		return sum, nonces
 	}
+	var coinbase []byte
+	if c.Fees != "" {
+		switch c.Coinbase {
+		case "winner": // the account sendVotingReward is going to appoint (same rank, same seed)
+			if w, err := system.PickVotingRewardWinner(int64(binary.LittleEndian.Uint64(seed))); err == nil {
+				coinbase = w
+			} else {
+				coinbase = vrAddr(90)
+			}
+		case "loser":
+			for _, v := range c.Voters {
+				coinbase = vrAddr(v.ID)
+			}
+			if w, err := system.PickVotingRewardWinner(int64(binary.LittleEndian.Uint64(seed))); err == nil {
+				for _, v := range c.Voters {
+					if string(vrAddr(v.ID)) != string(w) {
+						coinbase = vrAddr(v.ID)
+					}
+				}
+			}
+		case "vault":
+			coinbase = vrAddr(3)
+		case "fresh":
+			coinbase = vrAddr(90)
+		}
+		known := false
+		for _, id := range ids {
+			if coinbase != nil && string(vrAddr(id)) == string(coinbase) {
+				known = true
+				o.CbID = id
+			}
+		}
+		if coinbase != nil && !known {
+			ids = append(ids, 90)
+			o.CbID = 90
+		}
+		bs.BpReward.Set(vrBig(c.Fees))
+	}
 	sb, nb := dump(o.Before)
-	if err := sendVotingReward(bs, nil); err != nil {
+	if c.Fees != "" {
+		chain.DecorateBlockRewardFn(sendVotingReward)
+		if err := chain.SendBlockReward(bs, coinbase); err != nil {
+			o.Err = err.Error()
+		}
+	} else if err := sendVotingReward(bs, nil); err != nil {
 		o.Err = err.Error()
 	}
 	sa, na := dump(o.After)
